@@ -437,6 +437,9 @@ spif_bool_t
 spif_ustr_clear(spif_ustr_t self, spif_char_t c)
 {
     ASSERT_RVAL(!SPIF_USTR_ISNULL(self), FALSE);
+    if (!self->s) {
+        return TRUE;
+    }
     memset(self->s, c, self->size);
     self->s[self->len] = 0;
     return TRUE;
@@ -468,6 +471,9 @@ spif_ustr_downcase(spif_ustr_t self)
     spif_charptr_t tmp;
 
     ASSERT_RVAL(!SPIF_USTR_ISNULL(self), FALSE);
+    if (!self->s) {
+        return TRUE;
+    }
     for (tmp = self->s; *tmp; tmp++) {
         *tmp = tolower(*tmp);
     }
@@ -810,6 +816,9 @@ spif_ustr_trim(spif_ustr_t self)
     spif_charptr_t start, end;
 
     ASSERT_RVAL(!SPIF_USTR_ISNULL(self), FALSE);
+    if (!self->s) {
+        return TRUE;
+    }
     start = self->s;
     end = self->s + self->len - 1;
     for (; isspace((spif_uchar_t) (*start)) && (start < end); start++);
@@ -831,6 +840,9 @@ spif_ustr_upcase(spif_ustr_t self)
     spif_charptr_t tmp;
 
     ASSERT_RVAL(!SPIF_USTR_ISNULL(self), FALSE);
+    if (!self->s) {
+        return TRUE;
+    }
     for (tmp = self->s; *tmp; tmp++) {
         *tmp = toupper(*tmp);
     }
